@@ -91,6 +91,23 @@ Theorem enki_full_tail_refuted :
 Proof. split; [exact full_tail_old_step | exact full_tail_old_run]. Qed.
 Print Assumptions enki_full_tail_refuted.
 
+(* the order "count, then publish" of SplitAndAddTask (source fact: PropertiesSrc.src_SplitAndAddTask_structure) is what
+   join-completeness rests on.  The variant machine that publishes a piece before counting it (Model.step_pubfirst)
+   reaches the waiter's exit condition with indices unrun: parallel_for(4), 3 threads, concrete schedule *)
+Theorem enki_publish_before_count_refuted :
+  exists s', run_pubfirst (mk_params 4 3) {| v_st := init (mk_params 4 3) 0%nat; v_late := 0%nat |} pubfirst_schedule = Some s' /\
+             joined (v_st s') /\ done (v_st s') = [1; 2] /\ v_late s' = 2%nat /\
+             ~ Permutation (done (v_st s')) (zrange 0 4).
+Proof. exact pubfirst_refuted. Qed.
+Print Assumptions enki_publish_before_count_refuted.
+
+(* the same thread actions on the proved machine (count, then publish): m_RunningCount is 2 there, the waiter stays *)
+Theorem enki_count_before_publish_same_schedule :
+  exists s', run (mk_params 4 3) (init (mk_params 4 3) 0%nat) countfirst_schedule = Some s' /\
+             done s' = [1; 2] /\ rc s' = 2 /\ ~ joined s'.
+Proof. exact countfirst_same_schedule. Qed.
+Print Assumptions enki_count_before_publish_same_schedule.
+
 (* trace validation: every terminal execution of the machine is accepted by the extracted predicate
    that the check applies to ExecuteRange traces recorded from the real scheduler *)
 Theorem enki_accepts_sound : forall n T t0 s,
